@@ -22,6 +22,11 @@ class Color(enum.Enum):
     GREEN = "green"
 
 
+class Tone(str, enum.Enum):
+    """a member of a str-mixin enum equals its value (Tone.RED == 'red')"""
+    RED = "red"
+
+
 class Num(enum.IntEnum):
     ONE = 1
     TWO = 2
